@@ -265,13 +265,22 @@ impl MultiChainTracker {
         self.mean = self.mean.clone() + delta.clone() / n;
         self.mean_sq = self.mean_sq.clone() + delta * (shifted - self.mean.clone());
 
-        // Update self.p_accept and last state
-        self.p_accept = ndarray::Zip::from(x_arr.rows())
-            .and(self.last_state.rows())
-            .fold(self.p_accept, |p_accept, a, b| {
-                let accepted = (a.ne(&b) as i32) as f32;
-                (1.0 - ALPHA) * p_accept + ALPHA * accepted
-            });
+        // Update self.p_accept and last state. The first call has no previous state to compare
+        // with (the tracker is built without one): it only records. The average then starts from
+        // the first indicator, as in `ChainTracker`.
+        if self.n > 1 {
+            let p_start = if self.n == 2 {
+                x_arr.row(0).ne(&self.last_state.row(0)) as i32 as f32
+            } else {
+                self.p_accept
+            };
+            self.p_accept = ndarray::Zip::from(x_arr.rows())
+                .and(self.last_state.rows())
+                .fold(p_start, |p_accept, a, b| {
+                    let accepted = (a.ne(&b) as i32) as f32;
+                    (1.0 - ALPHA) * p_accept + ALPHA * accepted
+                });
+        }
         self.last_state = x_arr;
 
         Ok(())
